@@ -109,7 +109,8 @@ void h_c09_emit_literal(void) {
   uint8_t *dst = malloc(cap);
   uint8_t *lit = malloc(ln);
   __CPROVER_assume(dst != NULL && lit != NULL);
-  uint8_t *r = snappy_emit_literal(dst + off, lit + lo, len);
+  uint8_t *op0 = dst + off; const uint8_t *lit0 = lit + lo;   /* plain symbols: __CPROVER_old() of a sum is unsupported when a call is replaced */
+  uint8_t *r = snappy_emit_literal(op0, lit0, len);
   CQV_CANARY("emit_literal returns");
 }
 
@@ -118,7 +119,8 @@ void h_c09_emit_copy(void) {
   __CPROVER_assume(cap <= CQV_MAXBUF && off <= cap);
   uint8_t *dst = malloc(cap);
   __CPROVER_assume(dst != NULL);
-  uint8_t *r = snappy_emit_copy(dst + off, offset, len);
+  uint8_t *op0 = dst + off;
+  uint8_t *r = snappy_emit_copy(op0, offset, len);
   CQV_CANARY("emit_copy returns");
 }
 
